@@ -196,6 +196,19 @@ STMTS += [
 ]
 
 
+# a comprehension whose loop variable is also read by its own (or an earlier generator's) iterable, inside a
+# function or lambda: the iterable is evaluated before the variable is bound, so the name is read from outside
+STMTS += [
+    "def fn12():\n    return [it12 for it12 in it12]",
+    "lam12 = lambda: [x12 * 2 for x12 in x12]",
+    "def fn13():\n    return [c13 for c13 in c13.kids for c13 in c13.kids]",
+    "def fn14():\n    return {k14: 1 for k14 in k14}",
+    "def fn15():\n    return list(g15 for g15 in g15)",
+    "def fn16():\n    return {s16 for s16 in s16 if s16}",
+    "lc18 = [e18 for e18 in e18]",
+]
+
+
 def gen_scope_program(rnd):
     """small nested-scope programs over a tiny name pool, so that inner bindings collide with outer reads"""
     names = ["n1", "n2", "n3", "n4"]
